@@ -661,6 +661,41 @@ class _Retag5:
         self.ctx.silent("C04.R5", *a, **k)
 
 
+def rule_r12(facts, col, rule_id="C04.R12"):
+    """the runner asks the stream about the amount the block asked for: wherever runner code calls `StreamWait::wait(stream, n)`,
+    n is the `need` of the block's `WaitForStream(stream, need)` answer unchanged (casts only).  wait(n) does not only sleep -
+    its result is the end-of-stream verdict *for n*: with an inflated amount (`need.max(BATCH)`, `need + 1`) a closed stream
+    that still holds `need` samples truthfully answers 'n can never be satisfied' and the runner retires a block whose real
+    request can be met - committed samples are dropped with the stream."""
+    n_ = 0
+    for body in facts.bodies:
+        if body.file not in ("src/mtgraph.rs", "src/graph.rs"):
+            continue
+        k = 0
+        for bb, t in body.calls():
+            if "stream::StreamWait::wait" not in Body.callee_qs(t) or len(t["args"]) < 2:
+                continue
+            n_ += 1
+            key = "%s:wait#%d" % (body.q, k)
+            k += 1
+            e = peel(body.operand_expr(t["args"][1]), through_try=False)
+            j = 0
+            while e is not None and e.k == "cast" and j < 4:
+                e = peel(e.a, through_try=False)
+                j += 1
+            if e is not None and e.k == "field" and e.idx == 1 and e.a is not None and e.a.k == "downcast" and e.a.variant == "WaitForStream":
+                col.ok(rule_id, key, body.where(bb), "wait() is asked about the block's own `need`")
+            elif e is not None and any(x.k == "downcast" and x.variant == "WaitForStream" for x in walk(e)):
+                col.bad(rule_id, key, body.where(bb),
+                        "the runner asks the stream about `%s`, an amount computed from the block's `need`, not `need` itself: wait()'s "
+                        "result is the end-of-stream verdict for the amount it is given, so a closed stream that still holds what the block "
+                        "asked for is reported as 'can never be satisfied' and the block is retired with committed samples unread"
+                        % show(e)[:80], {})
+            else:
+                col.silent(rule_id, key, body.where(bb), "amount not traced to a WaitForStream answer: not decided")
+    return n_
+
+
 def run(ctx):
     facts = ctx.facts("default")
     cg = CallGraph(facts)
@@ -676,6 +711,8 @@ def run(ctx):
     from . import c09, c19 as _c19
     # "shutdown propagates": a block that answers a wait on a stream that already holds the amount is never told that the
     # OTHER input has ended (seed s9-c04) - same rule as C09.R3 / C05.R8
+    rule_r12(facts, ctx)
+    ctx.floor("C04.R12", 1, "StreamWait::wait call of the MTGraph worker")
     c09.rule_r3(facts, _c19._Retag(ctx, "C09.R3", "C04.R11"))
     ctx.floor("C04.R11", 40, "WaitForStream return sites with a plain short-window controlling test (same rule as C09.R3)")
     rule_r10(facts, ctx, cg=cg)
